@@ -376,6 +376,17 @@ theorem c01_changeover_strict_in_zone (d d' dcrit : Rat) (hc : 0 < dcrit) (hlo :
     Changeover.LC5 d dcrit < Changeover.LC5 d' dcrit := ChangeoverMono.all_strict d d' dcrit hc hlo h hhi
 /-- non-vacuity: the zone hypotheses are satisfiable (dcrit = 7/3, d = 1, d' = 2) -/
 example : (0 : Rat) < 7/3 ∧ (7/3 : Rat) / 10 ≤ 1 ∧ (1 : Rat) < 2 ∧ (2 : Rat) ≤ 7/3 := by decide +kernel
+/-- smoothness at the joins: the three polynomials (cast to ℝ, same operation order as the source) have derivatives
+    `30 y²(1−y)²`, `630 y⁴(1−y)⁴`, `2772 y⁵(1−y)⁵` at every real `y` — zeros of multiplicity 2, 4, 5 at both ends of the
+    transition, so the changeover joins the constant pieces 0 and 1 with 2, 4, 5 vanishing derivatives (no force jump at
+    `0.1·dcrit` or `dcrit`) -/
+theorem c01_changeover_derivative_form :
+    (∀ a : Rat, ((Changeover.pMercury a : Rat) : ℝ) = ChangeoverMono.mR a ∧ ((Changeover.pC4 a : Rat) : ℝ) = ChangeoverMono.c4R a ∧
+      ((Changeover.pC5 a : Rat) : ℝ) = ChangeoverMono.c5R a) ∧
+    ∀ y : ℝ, HasDerivAt ChangeoverMono.mR (30 * y^2 * (1-y)^2) y ∧ HasDerivAt ChangeoverMono.c4R (630 * y^4 * (1-y)^4) y ∧
+      HasDerivAt ChangeoverMono.c5R (2772 * y^5 * (1-y)^5) y :=
+  ⟨fun a => ⟨ChangeoverMono.m_cast a, ChangeoverMono.c4_cast a, ChangeoverMono.c5_cast a⟩,
+   fun y => ⟨ChangeoverMono.m_hasDeriv y, ChangeoverMono.c4_hasDeriv y, ChangeoverMono.c5_hasDeriv y⟩⟩
 /-- grid form of the same statement (kept: it is decided by the kernel on the translator-derived table `ChangeoverT`, independent of
     the real-analysis argument above): monotone on a grid of 251 distances across the transition -/
 theorem c01_changeover_monotone_partial : ∀ L ∈ [Changeover.Lmercury, Changeover.LC4, Changeover.LC5], ∀ k ∈ List.range 250,
